@@ -212,6 +212,8 @@ def one_case(ctx, rng, idx, mem, deadline):
             ctx.sample(jsonable({"request_bytes": reqbytes, "app_shape": spec["shape"],
                                  "client_got": {"status": patron.responses[0]["status"], "body": bytes(patron.responses[0]["body"])}}))
     except Exception as ex:
+        if isinstance(ex, (OSError, RuntimeError)) and state["stage"] == "build":
+            raise                                   # the harness could not open its own sockets
         ctx.case((req, spec["shape"]), nontrivial=False)
         ctx.fail("exception/%s/%s" % (state["stage"], exc_key(ex)),
                  "%s: %s escapes while a well-formed exchange is %s" % (type(ex).__name__, str(ex)[:120],
@@ -231,15 +233,20 @@ def _od(pairs):
 def worker(ctx, job):
     deadline = time.time() + job["budget"]
     rng = ctx.rng
+    errs = []
     for i in range(job["n"]):
         if time.time() > deadline:
             ctx.inconclusive_case("wall-clock watchdog")
             break
-        one_case(ctx, rng, i, mem=(i % job["loop_every"] != 0), deadline=deadline)
+        try:
+            one_case(ctx, rng, i, mem=(i % job["loop_every"] != 0), deadline=deadline)
+        except (OSError, RuntimeError) as ex:      # the harness's own real sockets, never a verdict
+            errs.append("%s: %s" % (type(ex).__name__, ex))
+    hg.tolerate_socket_errors(ctx, errs, job["n"])
 
 
 def run(ctx):
-    n = ctx.pick(250, 15000)
+    n = ctx.pick(200, 15000)
     jobs = [{"n": n, "loop_every": 10, "budget": ctx.pick(25, 330)} for _ in range(16)]
     ctx.shard(jobs, timeout=ctx.pick(60, 400))
     total = 16 * n
